@@ -214,6 +214,12 @@ pub struct SaveCase {
     pub ron: bool,
     pub uuid: bool,
     pub shuffle: Option<u64>,
+    /// marked source entities deleted again (+ maintain + MarkerAllocator::maintain) before `late` ones get their marker
+    pub churn: Vec<u16>,
+    /// source entities (positions) that are only marked after the churn
+    pub late: Vec<u16>,
+    /// load once, wipe the target world (delete_all + maintain, allocator not maintained), load again
+    pub reload_after_wipe: bool,
 }
 
 fn ent_spec() -> impl Strategy<Value = EntSpec> {
@@ -240,8 +246,11 @@ pub fn save_case() -> impl Strategy<Value = SaveCase> {
         any::<bool>(),
         any::<bool>(),
         proptest::option::weighted(0.4, any::<u64>()),
+        proptest::collection::vec(any::<u16>(), 0..4),
+        proptest::collection::vec(any::<u16>(), 0..4),
+        prop::bool::weighted(0.25),
     )
-        .prop_map(|(ents, holes, shift, recursive, ron, uuid, shuffle)| SaveCase { ents, holes, shift, recursive, ron, uuid, shuffle })
+        .prop_map(|(ents, holes, shift, recursive, ron, uuid, shuffle, churn, late, reload_after_wipe)| SaveCase { ents, holes, shift, recursive, ron, uuid, shuffle, churn, late, reload_after_wipe })
 }
 
 #[derive(Default)]
@@ -283,12 +292,43 @@ fn build_src<K: MarkerKind>(case: &SaveCase) -> Result<Src, Violation> {
     if !pre.is_empty() {
         src.delete_entities(&pre).unwrap();
     }
+    // entities marked late (after the churn below) and extra marked entities that are deleted again
+    let late: std::collections::BTreeSet<usize> = if n == 0 { Default::default() } else { case.late.iter().map(|x| (*x as usize * n) >> 16).filter(|i| case.ents[*i].marked).collect() };
     let marked_idx: Vec<usize> = (0..n).filter(|i| case.ents[*i].marked).collect();
+    // throw-away marked entities get the lowest marker ids, so deleting them later leaves holes
+    // below the real ones
+    let extra: Vec<Entity> = src.create_iter().take(case.churn.len()).collect();
+    {
+        let mut alloc = src.write_resource::<K::A>();
+        let mut markers = src.write_storage::<K::M>();
+        for e in &extra {
+            alloc.mark(*e, &mut markers);
+        }
+    }
     // mark
     {
         let mut alloc = src.write_resource::<K::A>();
         let mut markers = src.write_storage::<K::M>();
         for i in &marked_idx {
+            if late.contains(i) {
+                continue;
+            }
+            let r = alloc.mark(ents[*i], &mut markers);
+            ensure!("C15", "mark-live", matches!(r, Some((_, true))), "marking the live unmarked {:?} did not allocate a marker", ents[*i]);
+        }
+    }
+    if !extra.is_empty() {
+        src.delete_entities(&extra).unwrap();
+        src.maintain();
+        let ents_r = src.entities();
+        let markers = src.read_storage::<K::M>();
+        let mut alloc = src.write_resource::<K::A>();
+        alloc.maintain(&ents_r, &markers);
+    }
+    {
+        let mut alloc = src.write_resource::<K::A>();
+        let mut markers = src.write_storage::<K::M>();
+        for i in &late {
             let r = alloc.mark(ents[*i], &mut markers);
             ensure!("C15", "mark-live", matches!(r, Some((_, true))), "marking the live unmarked {:?} did not allocate a marker", ents[*i]);
         }
@@ -410,7 +450,7 @@ fn c14_one<K: MarkerKind>(case: &SaveCase) -> Result<SaveFacts, Violation> {
     {
         let mut seen = HashSet::new();
         for id in src_ids.iter().flatten() {
-            ensure!("C15", "duplicate-marker-id", seen.insert(id.clone()), "two source entities carry marker id {}", id);
+            ensure!("C14", "duplicate-marker-id-in-source", seen.insert(id.clone()), "two marked source entities carry marker id {} (they would be merged into one entity by any load)", id);
         }
     }
     let data = match (case.shuffle, format) {
@@ -422,6 +462,16 @@ fn c14_one<K: MarkerKind>(case: &SaveCase) -> Result<SaveFacts, Violation> {
     let shift: Vec<Entity> = dst.create_iter().take(case.shift as usize).collect();
     load::<K>(&mut dst, format, &data).map_err(|e| vio("C14", "deserialize-error", format!("loading failed: {} (data: {})", e, String::from_utf8_lossy(&data).chars().take(300).collect::<String>())))?;
     dst.maintain();
+    if case.reload_after_wipe {
+        // empty the world again (the marker allocator is deliberately not maintained) and load once more
+        dst.delete_all();
+        dst.maintain();
+        let again: Vec<Entity> = dst.create_iter().take(case.shift as usize).collect();
+        ensure!("C01", "wipe", again.len() == case.shift as usize, "re-creating the pre-existing entities failed");
+        load::<K>(&mut dst, format, &data).map_err(|e| vio("C14", "deserialize-error", format!("second load into the emptied world failed: {}", e)))?;
+        dst.maintain();
+    }
+    let shift: Vec<Entity> = if case.reload_after_wipe { (&dst.entities()).join().filter(|e| dst.read_storage::<K::M>().get(*e).is_none()).collect() } else { shift };
     // compare through the marker correspondence
     let ents_d = dst.entities();
     let markers = dst.read_storage::<K::M>();
@@ -679,7 +729,7 @@ struct MergeFacts {
     created_by_load: u32,
 }
 
-fn c15_one<K: MarkerKind>(case: &MergeCase) -> Result<MergeFacts, Violation> {
+fn c15_one<K: MarkerKind>(case: &MergeCase, mut transcript: Option<&mut Vec<String>>) -> Result<MergeFacts, Violation> {
     let mut ws: [MW<K>; 2] = [MW::new(), MW::new()];
     let mut bufs: Vec<(Vec<u8>, Vec<Record>)> = vec![];
     let mut loaded: HashSet<(usize, bool)> = HashSet::new();
@@ -875,6 +925,9 @@ fn c15_one<K: MarkerKind>(case: &MergeCase) -> Result<MergeFacts, Violation> {
                     .collect();
                 records.sort_by(|a, b| a.id.cmp(&b.id));
                 let parsed: Value = serde_json::from_slice(&data).map_err(|e| vio("C14", "serialize-error", format!("{}: output is not JSON: {}", step, e)))?;
+                if let Some(t) = transcript.as_mut() {
+                    t.push(format!("save bytes={}", String::from_utf8_lossy(&data)));
+                }
                 ensure!("C14", "record-count", parsed.as_array().map(|a| a.len()) == Some(records.len()), "{}: {} records serialised, {} marked live entities", step, parsed.as_array().map(|a| a.len()).unwrap_or(0), records.len());
                 bufs.push((data, records));
             }
@@ -951,15 +1004,50 @@ fn c15_one<K: MarkerKind>(case: &MergeCase) -> Result<MergeFacts, Violation> {
         }
         ws[0].check(&step)?;
         ws[1].check(&step)?;
+        if let Some(t) = transcript.as_mut() {
+            for (wi, w) in ws.iter().enumerate() {
+                let ents = w.world.entities();
+                let markers = w.world.read_storage::<K::M>();
+                let p = w.world.read_storage::<Plain>();
+                let r1 = w.world.read_storage::<RefOne>();
+                let line: Vec<String> = (&ents).join().map(|e| format!("{:?}:{:?}:{:?}:{:?}", e, markers.get(e).map(|m| K::id_string(m)), p.get(e), r1.get(e))).collect();
+                t.push(format!("step {} world {}: {}", n, wi, line.join(" ")));
+            }
+        }
     }
     Ok(facts)
 }
 
+/// C20: transcript of a merge history. Random uuids are excluded: with UuidMarker only explicit ids are used.
+pub fn det_merge(case: &MergeCase) -> Result<Vec<String>, Violation> {
+    let mut t = vec![];
+    if case.uuid {
+        let ops: Vec<MOp> = case
+            .ops
+            .iter()
+            .map(|o| match o {
+                MOp::Create { world, marked: true, .. } => MOp::Explicit { world: *world, delta: 0 },
+                MOp::Mark { world, .. } => MOp::Explicit { world: *world, delta: 1 },
+                other => other.clone(),
+            })
+            .collect();
+        let c = MergeCase { uuid: true, ops };
+        c15_one::<UuidKind>(&c, Some(&mut t))?;
+    } else {
+        c15_one::<SimpleKind>(case, Some(&mut t))?;
+    }
+    Ok(t)
+}
+
+pub fn merge_case_strategy(max_ops: usize) -> impl Strategy<Value = MergeCase> {
+    merge_case(max_ops)
+}
+
 fn c15_dispatch(case: &MergeCase) -> Result<MergeFacts, Violation> {
     if case.uuid {
-        c15_one::<UuidKind>(case)
+        c15_one::<UuidKind>(case, None)
     } else {
-        c15_one::<SimpleKind>(case)
+        c15_one::<SimpleKind>(case, None)
     }
 }
 
